@@ -17,6 +17,9 @@
  'kf': ['C17_crc32_tail_overread'],
  'cbmc_flags': ['--sat-solver', 'cadical'],
  'witness': {'unwind': 10},
+ 'native_probes': [{'n': 4, 'mis': 1, 'seed': 0, 'k': 0, 'content': '{1, 2, 3, 4, 5, 6}'}, {'n': 4, 'mis': 2, 'seed': 7, 'k': 0, 'content': '{1, 2, 3, 4, 5, 6}'},
+                   {'n': 5, 'mis': 3, 'seed': 0, 'k': 0, 'content': '{1, 2, 3, 4, 5, 6}'}, {'n': 6, 'mis': 1, 'seed': 0, 'k': 0, 'content': '{1, 2, 3, 4, 5, 6}'}],
+ 'bound': 'native probes: 4 sample messages (lengths 4, 4, 5, 6) at misaligned start addresses (1, 2, 3 bytes past a 16-byte boundary) under clang -fsanitize=address,undefined: stands in for the clause that no typed wide load is made through the message pointer',
 } @*/
 #include "vc.h"
 #include "c17_crc_ref.h"
@@ -35,7 +38,12 @@ void harness(void)
     /* known finding C17_crc32_tail_overread: a 1..3-byte tail is fetched as a whole 32-bit word */
     __CPROVER_assume(KF_C17_crc32_tail_overread == 0 ? 1 : KF_C17_crc32_tail_overread == 1 ? n % 4 == 0 : n % 4 != 0);
     __CPROVER_assume(n <= VC_MAXOBJ); /* no restriction in proof mode (2^40 > range of the length type); small sizes in witness mode */
-    uint8_t *data = NEW_OBJ(n); /* exact size: a read outside data[0..n) fails */
+    /* the message may start at any alignment: mis in 0..3 bytes into an exact-size object ('no routine needs an aligned
+     * buffer'; cbmc has no alignment check - the native probes of this unit run misaligned starts under UBSan) */
+    WIT(size_t, mis);
+    __CPROVER_assume(mis <= 3);
+    uint8_t *base = NEW_OBJ((size_t)n + mis);
+    uint8_t *data = base + mis; /* exact size at the end: a read beyond data[n-1] fails; mis == 0: a read before data[0] fails */
     FILL(data, (size_t)n, content);
     WIT(size_t, k);
     uint8_t at_k = k < n ? data[k] : 0;
